@@ -41,6 +41,7 @@ FLAVOURS = {
                         harness=["-DSIM_ASAN", "-fsanitize=address"], link=["-fsanitize=address,undefined"], heap=False),
     # diagnostic only (tools/coverage.sh): line coverage of the repo sources under the simulated workloads
     "cov-avx512": dict(repo=["-O1", "-g1", "-fopenmp", "-mavx2", "-mavx512f", "-D__AVX512__", "--coverage"] + NOBUILTIN, harness=["-DSIM_PLAIN"], link=["--coverage"], heap=False),
+    "plain-avx512": dict(repo=["-O3", "-g1", "-fopenmp", "-mavx2", "-mavx512f", "-D__AVX512__"] + NOBUILTIN, harness=["-DSIM_PLAIN"], link=[], heap=False),
     "plain-avx2": dict(repo=["-O3", "-g1", "-fopenmp", "-mavx2"] + NOBUILTIN, harness=["-DSIM_PLAIN"], link=[], heap=False),
 }
 ALLOWED_UNDEF = re.compile(r"^(simw_|_ZNSo|_ZNSi|_ZNSs|_ZNKSs|__tsan_|__asan_|__ubsan_|__gmp|GOMP_|omp_|_ZSt|_ZNSt|_ZNKSt|_ZTV|_ZTI|_ZTS|__cxa_|__gxx_personality|_Unwind_|__assert_fail|exit$|_exit$|abort$|__stack_chk_fail|__dso_handle|_GLOBAL_OFFSET_TABLE_|floor$|strlen$|memcmp$|_ZdlPv|_Znwm|_Znam|_ZdaPv|__cxa|_ZN9__gnu_cxx|__dynamic_cast|_ITM_|__libc_single_threaded)")
